@@ -64,6 +64,10 @@ let proxy_script bits ops =
         let ((f, called), t2) = now_proxy_eval !t (key_of p) (fit_of p) in
         Buffer.add_string buf (Printf.sprintf "e=%s/%d " (show_fit f) (if called then 1 else 0));
         t := t2
+    | 'A' ->
+        let (f, t2) = proxy_fast !t (key_of p) (fit_of p) in
+        Buffer.add_string buf (Printf.sprintf "a=%s/10 " (show_fit f));
+        t := t2
     | 'C' -> t := now_clear !t
     | 'S' ->
         let m = n_of_int 4242 in
